@@ -54,6 +54,12 @@ def plan(tier, seed):
     for cer in range(b["rich"]):
         for pos in range(10):
             items.append({"fam": "rich", "cer": cer, "pos": pos})
+    # siblings that share a discriminator (legal: three DTM segments, two SG12 groups): every shape with <= 5 nodes
+    for si in range(len(list(T.shapes(5 if tier == "quick" else 6, 2)))):
+        items.append({"fam": "samenames", "shape": si, "nmax": 5 if tier == "quick" else 6})
+    # wide nodes (deviation-bounded labelling): k top-level groups / k sub groups + m segments / k data elements
+    for k in (3, 5, 8, 9, 11, 17):
+        items.append({"fam": "wide", "k": k})
     return items
 
 
@@ -61,9 +67,20 @@ def worker_init():
     H.init()
 
 
-def check_case(shape, exprs, cer, soll, entry="deep", variant=0):
+def _rename_same(groups):
+    """every node gets the name of its kind only: siblings share their discriminator"""
+    from mc.ref import validation as R7
+
+    for n in R7.nodes(groups):
+        n["id"] = {"group": "SG12", "segment": "DTM", "free": "DTM->2380", "pool": "DTM->2005"}[n["kind"]]
+    return groups
+
+
+def check_case(shape, exprs, cer, soll, entry="deep", variant=0, same_names=False):
     H.init()
     groups = H.model_from(shape, exprs, variant)
+    if same_names:
+        groups = _rename_same(groups)
     use = groups
     if entry == "segment_level":
         use = groups[:1]
@@ -80,7 +97,7 @@ def check_case(shape, exprs, cer, soll, entry="deep", variant=0):
         return []
     kind, exp, obs = diff
     return [{"kind": kind, "case": {"shape": shape, "exprs": list(exprs), "cer": cer, "soll_is_required": soll, "entry": entry,
-                                    "variant": variant},
+                                    "variant": variant, "same_names": same_names},
              "expected": exp, "observed": obs, "msg": f"exprs={list(exprs)} soll_is_required={soll}"}]
 
 
@@ -120,6 +137,28 @@ def run_item(item):
                 _acc(r, check_case(shape, exprs, 0, soll, variant=k % 3), n, {"shape": repr(shape), "exprs": list(exprs), "soll": soll})
             if k % 4 == 0:
                 _acc(r, check_case(shape, exprs, 0, k % 8 == 0, entry="segment_root", variant=k % 3), n, {"shape": repr(shape), "entry": "segment_root"})
+    elif fam == "samenames":
+        shape = [s for s in T.shapes(item["nmax"], 2)][item["shape"]]
+        n = T.count_nodes(shape)
+        for k, exprs in enumerate(itertools.product(H.CLASSES3, repeat=n)):
+            _acc(r, check_case(shape, exprs, 0, k % 2 == 0, variant=k % 3, same_names=True), n, {"shape": repr(shape), "same_names": True})
+    elif fam == "wide":
+        k = item["k"]
+        wide_shapes = [tuple(("G", (), ()) for _ in range(k)),                                      # k top-level groups
+                       (("G", tuple(("G", (), ()) for _ in range(k // 2)), tuple(("S", ()) for _ in range(k - k // 2))),),  # mixed children
+                       (("G", (), tuple(("S", ("F",)) for _ in range(k))),),                          # k segments with an element
+                       (("G", (), (("S", tuple("FP"[i % 2] for i in range(k))),)),)]                 # k data elements
+        for shape in wide_shapes:
+            n = T.count_nodes(shape)
+            labellings = [["Muss [1]"] * n]
+            for i in range(n):
+                for other in ("Muss [2]", "Kann [1]", "Soll [1]"):
+                    lab = ["Muss [1]"] * n
+                    lab[i] = other
+                    labellings.append(lab)
+            for li, exprs in enumerate(labellings):
+                for soll in (True, False):
+                    _acc(r, check_case(shape, exprs, 0, soll, variant=li % 3), n, {"wide": k, "exprs": exprs[:4]})
     elif fam == "rich":
         base = ["Muss [1]", "Muss", "Kann [1]", "Soll [1]", "X", "Muss [1]", "Muss [1]", "Muss", "Soll [1]", "Muss"]
         for m in H.RICH_MENU:
@@ -137,4 +176,4 @@ def _tup(x):
 
 def replay(case):
     return check_case(_tup(case["shape"]), case["exprs"], case["cer"], case["soll_is_required"], case.get("entry", "deep"),
-                      case.get("variant", 0))
+                      case.get("variant", 0), case.get("same_names", False))
